@@ -843,10 +843,14 @@ void sim_enter(int rule, int is_eof, const char *text, int leng, int start,
 	I->is_eof = is_eof;
 	I->cur_rule = rule;
 	I->cur_len = leng;
-	I->more_prefix = I->prev_more ? I->prev_len : 0;
+	if (!I->rejected) {
+		/* (after REJECT the next alternative keeps the same yymore prefix) */
+		I->more_prefix = I->prev_more ? I->prev_len : 0;
+	}
 	if (I->more_prefix > leng)
 		I->more_prefix = leng;
 	I->prev_more = 0;
+	I->rejected = 0;
 	I->did_textop = I->did_less = I->did_bufop = I->did_more = I->n_ops = 0;
 	I->provided_input = 0;
 	while (X->act_pos < X->acts.n && X->acts.v[X->act_pos].ord < I->act_ord)
@@ -879,6 +883,7 @@ int sim_next_op(sim_xop *x)
 		case SOP_LESS: I->did_less = 1; I->cur_len = (int) x->a; break;
 		case SOP_UNPUT: case SOP_INPUT: I->did_textop = 1; break;
 		case SOP_MORE: I->prev_more = 1; I->did_more = 1; break;
+		case SOP_REJECT: I->rejected = 1; break;
 		case SOP_SWITCH: case SOP_PUSH_BUF: case SOP_PUSHNEW: case SOP_SWITCHNEW:
 		case SOP_POP_BUF: case SOP_SCAN_BYTES: case SOP_SCAN_STRING: case SOP_SCAN_BUFFER:
 		case SOP_NEWFILE: case SOP_RESTART: case SOP_FLUSH:
